@@ -32,9 +32,10 @@ const (
 	peInconclusive        // solver unknown/timeout/error
 	pePanic               // target panic escaped the harness
 	peExit                // os.Exit / logrus.Fatal reached outside nd.Recovered
+	peSkipped             // subtree owned by another shard
 )
 
-var peNames = [...]string{"done", "infeasible", "unsupported", "budget", "inconclusive", "panic", "exit"}
+var peNames = [...]string{"done", "infeasible", "unsupported", "budget", "inconclusive", "panic", "exit", "skipped"}
 
 // pathEnd is thrown as a host panic to abandon the current path.
 type pathEnd struct {
@@ -73,6 +74,8 @@ type Explorer struct {
 	neqConst   map[*Term]map[uint64]bool
 	FactHits   int
 	fixed      map[string]int64 // nd variables pinned by -fix
+	shardW, shardN, shardDepth int
+	prefixCounter              int
 	ndvars     []ndVar // nd variables created in the current run
 	ndseen     map[string]int
 
@@ -220,6 +223,12 @@ func (e *Explorer) forkAux(tag string, alts []*Term, aux *uint64) int {
 		return cp.cur
 	}
 	// new fork
+	if e.shardN > 1 && e.pos == e.shardDepth {
+		e.prefixCounter++
+		if (e.prefixCounter-1)%e.shardN != e.shardW {
+			panic(pathEnd{peSkipped, "other shard"})
+		}
+	}
 	e.Forks++
 	cp := &choicePoint{alts: alts, tag: tag, cur: -1}
 	if aux != nil {
